@@ -180,6 +180,8 @@ structure St where
   /-- statement ids in the order `analyze_reachable_symbols` was entered, newest first -/
   visits : List Int
   skips : Nat
+  /-- statements at whose visit the `if key in current_bits: continue` shortcut was taken, newest first -/
+  skipStmts : List Int
 
 /-- predecessor selection of `analyze_reachable_symbols` -/
 def selectPreds (I : Input) (G : Graph) (counter : Nat) (s : Int) : List Int :=
@@ -217,7 +219,8 @@ def step (v : Variant) (I : Input) (G : Graph) (st : St) : St :=
         | .r1 => (popV .r1 G st.wl).add G.prio (succs G.E s)
       { wl := wl1, counters := upd st.counters s (st.counters s + 1),
         ins := upd st.ins s a.1, outs := upd st.outs s a.2.1,
-        visits := s :: st.visits, skips := st.skips + a.2.2 }
+        visits := s :: st.visits, skips := st.skips + a.2.2,
+        skipStmts := if a.2.2 == 0 then st.skipStmts else s :: st.skipStmts }
     else { st with wl := popV v G st.wl }
 
 def run (v : Variant) (I : Input) (G : Graph) : Nat → St → St
@@ -226,7 +229,7 @@ def run (v : Variant) (I : Input) (G : Graph) : Nat → St → St
 
 def init (G : Graph) : St :=
   { wl := WL.empty.add G.prio G.first, counters := fun _ => 0, ins := fun _ => [], outs := fun _ => [],
-    visits := [], skips := 0 }
+    visits := [], skips := 0, skipStmts := [] }
 
 /-- every iteration removes one list entry; entries are only added by the at most
 `maxRound` analysed visits of each statement. -/
@@ -237,6 +240,7 @@ structure Result where
   outs : Int → List Def
   visits : List Int
   skips : Nat
+  skipStmts : List Int
   /-- the work list was empty when the fuel ran out (must be true; reported by the driver) -/
   finished : Bool
 
@@ -244,7 +248,7 @@ def rdWith (v : Variant) (I : Input) : Result :=
   let G := mkGraph I.rawEdges
   let st := run v I G (runFuel I G) (init G)
   { ins := st.ins, outs := st.outs, visits := st.visits.reverse, skips := st.skips,
-    finished := st.wl.heap.isEmpty }
+    skipStmts := st.skipStmts.reverse, finished := st.wl.heap.isEmpty }
 
 /-- live model: the code as it is in the repository now. -/
 def rd (I : Input) : Result := rdWith .pinned I
